@@ -231,7 +231,15 @@ func buildOpt(g *gctx, maxCtx int) OptCase {
 	pieces := g.template(4, g.n(1, 3, "depth"))
 	c.Template = pbt.S(printTemplate(pieces, g.sepFn(), g.padFn()))
 	hp, vals := hoist(pieces)
-	if len(vals) > 0 {
+	switch {
+	case len(vals) == 0:
+	case g.labels["time-cache-dynamic"]:
+		// the format-remembering time parser learns from the first date it
+		// sees; whether a date assembled from constants counts as "seen" at
+		// compile time is the parser's business, not a value of the template:
+		// the constants-from-the-match relation is not claimed there
+		pbt.Exclude("hoisting-with-format-remembering-time-parser")
+	default:
 		c.Hoisted = pbt.S(printTemplate(hp, oneSpace, nil))
 		c.HoistVals = pbt.SS(vals)
 	}
